@@ -55,7 +55,7 @@ func intOf(name, t string) string {
 	switch t {
 	case "", "int":
 		return name
-	case "rune", "byte", "int8", "int16", "int32", "int64", "uint", "uint8", "uint16", "uint32", "uint64", "uintptr", "MyInt", "float64":
+	case "rune", "byte", "int8", "int16", "int32", "int64", "uint", "uint8", "uint16", "uint32", "uint64", "uintptr", "tr.MyInt", "float64":
 		return "int(" + name + ")"
 	case "string":
 		return "tr.I(" + name + ")"
@@ -386,6 +386,11 @@ func (r *renderer) stmt(s *Stmt) {
 		}
 	case "closure":
 		r.funcLit(s.Name, s.Fn)
+	case "closure-assign":
+		// re-assignment of a function variable: Name = func(..) T { return .. }
+		r.w("%s = func(%s) %s {", s.Name, params(s.Fn.Params), s.Fn.Result)
+		r.w("\treturn %s", r.expr(s.Fn.Ret))
+		r.w("}")
 	case "itdecl":
 		r.w("%s := %s", s.Name, r.iter(s.Iter))
 		r.w("_ = %s", s.Name)
@@ -515,6 +520,26 @@ func (r *renderer) decl(d *Decl) {
 	r.w("")
 }
 
+// argAt parses a brace-delimited argument starting at s[at] == '{'; returns content and the index after '}'.
+func argAt(s string, at int) (string, int, bool) {
+	if at >= len(s) || s[at] != '{' {
+		panic("render: macro argument expected in " + s)
+	}
+	depth := 0
+	for j := at; j < len(s); j++ {
+		switch s[j] {
+		case '{':
+			depth++
+		case '}':
+			depth--
+			if depth == 0 {
+				return s[at+1 : j], j + 1, true
+			}
+		}
+	}
+	panic("render: unbalanced macro argument in " + s)
+}
+
 // expandRaw replaces the macros of raw templates:
 //   $YIELD{e}  $YFROM{e}  $ITER{T}  $RANGE{e}  $RET  $CO (API qualifier in S, empty in R)
 func (r *renderer) expandRaw(s string) string {
@@ -559,6 +584,29 @@ func (r *renderer) expandRaw(s string) string {
 				out.WriteString(r.co + "YieldFrom(" + r.expandRaw(a) + ")")
 			} else {
 				out.WriteString("ref.From(yield, " + r.expandRaw(a) + ")")
+			}
+			i += n
+		} else if strings.HasPrefix(rest, "$GEN{") {
+			// $GEN{head}{T}{body}: a generator function in a raw declaration
+			head, p1, _ := argAt(rest, 4)
+			elem, p2, _ := argAt(rest, p1)
+			body, p3, _ := argAt(rest, p2)
+			elemS := r.expandRaw(elem)
+			r.gens = append(r.gens, elemS)
+			r.named = append(r.named, false)
+			bs := r.expandRaw(body)
+			r.gens = r.gens[:len(r.gens)-1]
+			r.named = r.named[:len(r.named)-1]
+			h := r.expandRaw(head)
+			if r.mode == "S" {
+				out.WriteString("func " + h + " " + r.iterType(elemS) + " {" + bs + "}")
+			} else {
+				out.WriteString("func " + h + " " + r.iterType(elemS) + " {\n\treturn ref.New(func(yield func(" + elemS + ")) {" + bs + "})\n}")
+			}
+			i += p3
+		} else if a, n, ok := arg("$SONLY"); ok {
+			if r.mode == "S" {
+				out.WriteString(r.expandRaw(a))
 			}
 			i += n
 		} else if a, n, ok := arg("$ITER"); ok {
